@@ -99,8 +99,12 @@ RedoDeviates(D0) ==
   LET Ds == {D \in (SUBSET (AllowedDev \cap RedoDevs)) \ D0 : NoRoots(E.redo) = NoRoots(Redone(base, journal, zero, D))} IN
   /\ Ds # {}
   /\ \A d \in Smallest(Ds) : UseDev(d)
-\* two projections are the same up to the listed root deviations (JournalOps.RootDevs)
-Same(x, y) == LET ds == RootDevs(x, y, ghost, zero, E.emptyroot) IN ds \subseteq AllowedDev /\ \A d \in ds : UseDev(d)
+\* the projection x of another manager (gx = its ghost pairs) and the projection y of the executing one are the same up to
+\* the listed root deviations (JournalOps.RootDevsX)
+Same(x, gx, y) == LET ds == RootDevsX(x, y, ghost, gx, zero, E.emptyroot) IN ds \subseteq AllowedDev /\ \A d \in ds : UseDev(d)
+\* the caches of the reverts-free run (it executed the surviving journal) and of the replay (it executed the published logs)
+CleanGhosts == GhostsOfRun(journal, {})
+RedoGhosts == UNION {GhostsOfRun(Published(journal, a, zero, {}), {}) : a \in DOMAIN base}
 SealStrict ==
   LET touched == {E.pub[i].a : i \in 1..Len(E.pub)}
   IN
@@ -108,7 +112,7 @@ SealStrict ==
   /\ E.cerr = ""
   /\ E.cleanops = [i \in 1..Len(journal) |-> <<journal[i].a, journal[i].k, journal[i].new>>]
   \* reverted work leaves no trace: same getters and roots ...
-  /\ Same(Drop(E.clean, EvMask), Drop(E.obs, EvMask))
+  /\ Same(Drop(E.clean, EvMask), CleanGhosts, Drop(E.obs, EvMask))
   \* ... and the same published logs (type, version, hash; in order), but for the root logs of roots that differ
   /\ SansDifferingRootLogs(E.pub, E.obs, E.clean) = SansDifferingRootLogs(E.cleanpub, E.obs, E.clean)
   \* the block can be saved, and what is saved is what was executed (Save writes the accounts with published logs)
@@ -119,7 +123,7 @@ SealStrict ==
         /\ \E a \in touched : <<a, "code">> \in ghost /\ E.obs[a].code = ""
         /\ UseDev("Dev_SaveFailsOnDirtyEmptyCode")
   \* the replay of the published logs gives the executed state, roots included
-  /\ \/ Same(Drop(E.redo, EvMask), Drop(E.obs, EvMask))
+  /\ \/ Same(Drop(E.redo, EvMask), RedoGhosts, Drop(E.obs, EvMask))
      \/ /\ Drop(E.redo, Roots \cup EvMask) # Drop(E.obs, Roots \cup EvMask)
         /\ RedoDeviates({{}})
 \* st was bent by a listed undo deviation: the other run and the re-read cannot be compared with it; the replay still has
